@@ -14,7 +14,6 @@ package db
 // Everything observed goes to $VERIF_OUT/crash.cases; the Lean driver (family `crash`) judges it with `acceptKey`.
 
 import (
-	"syscall"
 	"bufio"
 	"encoding/hex"
 	"fmt"
@@ -25,6 +24,7 @@ import (
 	"path/filepath"
 	"strconv"
 	"strings"
+	"syscall"
 	"testing"
 	"time"
 
